@@ -602,6 +602,7 @@ def run(chk):
     _assertany_rule(chk, prog)
     _applyall_rule(chk, prog)
     _threadctx_rule(chk, prog)
+    _sandboxcall_rule(chk, prog)
 
 
 def _applyall_rule(chk, prog):
@@ -683,3 +684,35 @@ def _threadctx_rule(chk, prog):
         else:
             chk.ok(rule, "%s: no sandbox test on the worker thread" % fn.name)
     chk.floor(rule, 3, n)
+
+
+def _sandboxcall_rule(chk, prog):
+    """(sandbox ...) collects the requested flags and hands them to janet_sandbox, which ORs them in (C18-APPLYALL).
+    The cfunction itself must not decide that there is "nothing to do": any normal return that skips janet_sandbox
+    leaves requested capabilities enabled while the caller believes they are off."""
+    rule = "C18-SANDBOXCALL"
+    chk.rule(rule, "every returning path of the sandbox cfunction has called janet_sandbox with the collected flags")
+    fn = prog.need_func("janet_core_sandbox", "corelib.c")
+    chk.analysed(fn)
+    chk.instance(rule)
+
+    def transfer(st, x):
+        if x.k == "call" and x.callee == "janet_sandbox":
+            return st | {"applied"}
+        return st
+    IN, OUT, T = flow.forward_paths(fn, frozenset(), transfer)
+    bad = None
+    for b, kind in flow.exits(fn):
+        if kind != "return" or b.id not in OUT:
+            continue
+        for ps in OUT[b.id]:
+            if "applied" not in ps:
+                bad = b
+    if bad is None:
+        chk.ok(rule, "janet_core_sandbox always reaches janet_sandbox")
+    else:
+        last = bad.elems[-1] if bad.elems else fn
+        chk.violation(rule, "corelib.c", fn.name, "skip", last.loc,
+                      "janet_core_sandbox can return (near %s) without calling janet_sandbox: (sandbox :fs-read) followed by (sandbox :fs) "
+                      "returns normally and leaves fs-write and fs-temp enabled" % last.loc)
+    chk.floor(rule, 1)
